@@ -92,6 +92,23 @@ Theorem C01_checker_sound :
 Proof. exact K01_with_sound. Qed.
 Print Assumptions C01_checker_sound.
 
+(* ... and it never rejects an outcome that meets the spec: a K01 alarm is a violation, not an artefact;
+   in particular the model's own outcome passes it for every input (injective digest). *)
+Theorem C01_checker_complete :
+  forall shuf thr limit obs agreed,
+    C01_spec shuf thr limit obs agreed -> K01_with result_eqb thr limit shuf obs agreed = true.
+Proof. exact K01_with_complete. Qed.
+Print Assumptions C01_checker_complete.
+
+Theorem C01_model_passes_checker :
+  forall shuf utg wg uid pi_u pi_b tp tb lim prev l,
+    (forall v, Permutation (pi_u v) v) ->
+    (forall a b, uid a = uid b -> a = b) -> (forall a b, shuf a = shuf b -> a = b) -> (1 <= tp)%nat ->
+    K01_with result_eqb tp (l_agreed lim) shuf (valid_obs_list (valid_obs utg wg) l)
+      (oc_agreed (outcome_of uid shuf (valid_obs utg wg) true pi_u pi_b tp tb lim prev l)) = true.
+Proof. exact model_passes_K01. Qed.
+Print Assumptions C01_model_passes_checker.
+
 (* Obligations against the regenerated source facts: the code passes plugin.F+1 as threshold
    (so tp = f+1 >= 1) and caps at OutcomeAgreedPerformablesLimit = 100. *)
 Theorem C01_gen_threshold : QuorumPerformablesAdd = 1%Z /\ OutcomeAgreedPerformablesLimit = 100%Z.
